@@ -622,7 +622,9 @@ pub fn step(app: &mut SApp, nm: &Names, st: &SState, op: &SOp, cfg: &Cfg, ops_al
                     h.shares.insert((*d, *v), s);
                 }
                 h.queue.push(QEntry { d: *d, v: *v, amount: Rat::int(*amt), payout_at: h.now + cfg.unbonding as u128 * 1_000_000_000, slashes: 0 });
-                if post.deleg[&(*d, *v)] == 0 {
+                // (a delegation that is still positive below one token - shown as 0 - is still a
+                // positive delegation: what it has earned stays on its account)
+                if !h.shares.contains_key(&(*d, *v)) {
                     h.rewards.remove(&(*d, *v));
                 }
             }
@@ -666,7 +668,7 @@ pub fn step(app: &mut SApp, nm: &Names, st: &SState, op: &SOp, cfg: &Cfg, ops_al
                     }
                     let t = h.share(*d, *dst).add(&Rat::int(*amt));
                     h.shares.insert((*d, *dst), t);
-                    if post.deleg[&(*d, *src)] == 0 {
+                    if !h.shares.contains_key(&(*d, *src)) {
                         h.rewards.remove(&(*d, *src));
                     }
                 }
@@ -780,7 +782,7 @@ pub fn step(app: &mut SApp, nm: &Names, st: &SState, op: &SOp, cfg: &Cfg, ops_al
                     } else {
                         h.shares.insert((d, *v), s);
                     }
-                    if post.deleg[&(d, *v)] == 0 {
+                    if !h.shares.contains_key(&(d, *v)) {
                         h.rewards.remove(&(d, *v));
                     }
                 }
@@ -918,7 +920,17 @@ fn state_key(s: &SState) -> u128 {
 
 pub fn explore(ctx: &Ctx, nm: &Names, alpha: &[SOp], max_depth: usize, cfg: &Cfg, keep_all: bool, max_states: usize) -> ExpOut {
     let mut app0 = build(nm, cfg);
-    let obs0 = observe(&app0, nm).unwrap_or_else(|e| machinery_error(&format!("cannot observe the initial staking state: {}", e)));
+    let obs0 = match observe(&app0, nm) {
+        Ok(o) => o,
+        Err(e) => {
+            // the subject's queries fail or panic on a freshly built chain: a verdict, not a harness problem
+            ctx.violation(
+                &format!("{}:panic-or-error-in-query:freshly-built-chain", cfg.prop.to_lowercase()),
+                json!({"engine": "staking", "history": [], "error": e, "unbonding_s": cfg.unbonding, "apr_pct": cfg.apr_pct, "validators_registered_ahead_s": cfg.reg_ahead_s, "initial_funds": cfg.funds.to_string(), "clause": "staking queries answer on a freshly built chain (no operation made yet)"}),
+            );
+            return ExpOut { states: 0, transitions: 0, depth: 0, layers: vec![], replays: 0, ok: 0, err: 0, tolerated: 0, caps: vec![], samples: vec![], all: vec![] };
+        }
+    };
     // process_queue writes its (empty) queue on the first block update; start from a settled state
     let b0 = app0.block_info();
     app0.set_block(b0.clone());
